@@ -121,7 +121,10 @@ func (c *Ctx) instrWrites(ins ssa.Instruction, keys map[string]bool, locals map[
 		keys[c.sortOf(x.Type().Underlying().(*types.Slice).Elem())] = true
 		keys["+"+c.sortOf(x.Type().Underlying().(*types.Slice).Elem())] = true
 		*allocs = true
-	case *ssa.MakeClosure, *ssa.MakeMap:
+	case *ssa.MakeMap:
+		keys[c.mapKey(x.Type())] = true
+		*allocs = true
+	case *ssa.MakeClosure:
 		*allocs = true
 	case *ssa.MapUpdate:
 		keys[c.mapKey(x.Map.Type())] = true
@@ -231,16 +234,10 @@ func (c *Ctx) callWrites(call *ssa.CallCommon, visiting map[*ssa.Function]bool) 
 
 func (c *Ctx) declaredWrites(fc *FuncContract) *writeSet {
 	w := newWriteSet()
-	for _, tn := range strings.Split(fc.Opts["havoc"], ",") {
-		if tn = strings.TrimSpace(tn); tn != "" {
-			if te, err := parseTypeExpr(tn); err == nil {
-				if t := c.resolveType(te, c.prog.TypesPkgs[fc.Pkg]); t != nil {
-					w.keys[c.sortOf(t)] = true
-					w.allocKeys[c.sortOf(t)] = true
-					w.allocs = true
-				}
-			}
-		}
+	for _, k := range c.optSortKeys(fc.Opts["havoc"], c.prog.TypesPkgs[fc.Pkg]) {
+		w.keys[k] = true
+		w.allocKeys[k] = true
+		w.allocs = true
 	}
 	if s := fc.Opts["writes"]; s != "" && s != "none" {
 		for _, part := range strings.Split(s, ",") {
@@ -545,12 +542,19 @@ func (fr *frame) applyContract(fc *FuncContract, display string, names []string,
 	for _, r := range fc.Requires {
 		v := env.trBool(r.Expr)
 		label := display + ":" + r.Label
+		if c.trustPre[pkgNameOf(fc.Pkg)] {
+			// opt trustpre=<pkg>: the caller relies on the dependency's own invariant
+			fr.assumeR(v)
+			c.assumed["precondition ["+r.Label+"] of "+display+" is assumed at its call sites in "+fr.name+" (opt trustpre: the invariant of that package is the subject of its own property)"] = true
+			continue
+		}
 		fr.oblige("requires", label, propsOr(r.Props, fr.props), v, "precondition of "+display+": "+r.Text, pos)
 	}
 	for _, p := range fc.Panics {
 		v := env.trBool(p.Expr)
 		fr.oblige("safety", "callpanic:"+display+":"+p.Label, nil, implies(v, fr.panicOK), "callee may panic: "+p.Text, pos)
-		fr.assumeR(not(v))
+		// a panics clause licenses a panic ("only if"); it does not promise one, so
+		// nothing may be assumed about it after a normal return
 	}
 	// havoc what the callee may write
 	var keys []string
@@ -560,6 +564,7 @@ func (fr *frame) applyContract(fc *FuncContract, display string, names []string,
 		}
 		c.assumed["call to "+display+" havocs all known heaps"] = true
 	}
+	c.expandMapKeys(w)
 	for k := range w.keys {
 		keys = append(keys, k)
 	}
@@ -577,16 +582,10 @@ func (fr *frame) applyContract(fc *FuncContract, display string, names []string,
 	}
 	// opt havoc=T1,T2: the callee may change any object of these sorts (no frame is assumed)
 	havocKeys := map[string]bool{}
-	for _, tn := range strings.Split(fc.Opts["havoc"], ",") {
-		if tn = strings.TrimSpace(tn); tn != "" {
-			if te, err := parseTypeExpr(tn); err == nil {
-				if t := c.resolveType(te, c.prog.TypesPkgs[fc.Pkg]); t != nil {
-					havocKeys[c.sortOf(t)] = true
-					w.keys[c.sortOf(t)] = true
-					w.allocKeys[c.sortOf(t)] = true
-				}
-			}
-		}
+	for _, k := range c.optSortKeys(fc.Opts["havoc"], c.prog.TypesPkgs[fc.Pkg]) {
+		havocKeys[k] = true
+		w.keys[k] = true
+		w.allocKeys[k] = true
 	}
 	if len(havocKeys) > 0 {
 		keys = nil
@@ -1149,4 +1148,58 @@ func (fr *frame) typeReqObligation(fc *FuncContract, display string, names []str
 		// keep later reasoning meaningful: do not assume false
 		c.cmds = c.cmds[:len(c.cmds)-1]
 	}
+}
+
+func pkgNameOf(path string) string {
+	if i := strings.LastIndex(path, "/"); i >= 0 {
+		return path[i+1:]
+	}
+	return path
+}
+
+// expandMapKeys replaces write keys "map!K!V" (a map update somewhere in the
+// callee) by the two heaps that model maps of that type.
+func (c *Ctx) expandMapKeys(w *writeSet) {
+	for _, set := range []map[string]bool{w.keys, w.allocKeys} {
+		for k := range set {
+			parts := strings.Split(k, "!")
+			if len(parts) != 3 || parts[0] != "map" {
+				continue
+			}
+			delete(set, k)
+			c.heapSorts[k+"!dom"] = "(Array Int (Array " + parts[1] + " Bool))"
+			c.heapSorts[k+"!val"] = "(Array Int (Array " + parts[1] + " " + mapValSort(parts[2]) + "))"
+			set[k+"!dom"] = true
+			set[k+"!val"] = true
+		}
+	}
+}
+
+// optSortKeys resolves a comma-separated option value (type names, or raw
+// heap keys written sort:<key>) to heap sort keys.
+func (c *Ctx) optSortKeys(val string, pkg *types.Package) []string {
+	var out []string
+	for _, tn := range strings.Split(val, ",") {
+		tn = strings.TrimSpace(tn)
+		if tn == "" {
+			continue
+		}
+		if strings.HasPrefix(tn, "sort:") {
+			k := tn[len("sort:"):]
+			parts := strings.Split(k, "!")
+			if len(parts) == 4 && parts[0] == "map" {
+				base := strings.Join(parts[:3], "!")
+				c.heapSorts[base+"!dom"] = "(Array Int (Array " + parts[1] + " Bool))"
+				c.heapSorts[base+"!val"] = "(Array Int (Array " + parts[1] + " " + mapValSort(parts[2]) + "))"
+			}
+			out = append(out, k)
+			continue
+		}
+		if te, err := parseTypeExpr(tn); err == nil {
+			if t := c.resolveType(te, pkg); t != nil {
+				out = append(out, c.sortOf(t))
+			}
+		}
+	}
+	return out
 }
